@@ -1,15 +1,18 @@
 #!/bin/bash
 # run_seeds.sh [name ...]: applies each seeded change to /repo, runs the property's quick check, reverts.
-# Prints one line per seed: DETECTED (check exits 1 with a VIOLATION line) or MISSED.
+# Prints one line per seed: DETECTED (check exits 1 with a VIOLATION line) or MISSED; the full output of each run is kept in
+# out/seedruns/<name>.txt (selftest/seed_index.py builds seeded/INDEX.md and replay/seed_index.json from them).
 cd /verif
 names="$@"; [ -z "$names" ] && names=$(ls seeded)
+mkdir -p out/seedruns
 for n in $names; do
   d=seeded/$n; [ -f $d/patch.diff ] || continue
   prop=$(python3 -c "import json;print(json.load(open('$d/meta.json'))['property'])")
   if [ -n "$(git -C /repo status --porcelain --untracked-files=no)" ]; then echo "/repo not clean"; exit 2; fi
   git -C /repo apply $PWD/$d/patch.diff || { echo "$n: patch does not apply"; continue; }
-  out=$(NSQVC_EVIDENCE_DIR=/verif/out/selftest_evidence ./check $prop 2>&1); rc=$?   # evidence of the broken tree goes to a scratch dir
-  git -C /repo checkout -- .
+  out=$(NSQVC_NO_REPLAY=1 NSQVC_EVIDENCE_DIR=/verif/out/selftest_evidence ./check $prop 2>&1); rc=$?   # evidence of the broken tree goes to a scratch dir
+  git -C /repo apply -R $PWD/$d/patch.diff 2>/dev/null || git -C /repo checkout -- .
+  echo "$out" > out/seedruns/$n.txt
   if [ $rc -eq 1 ] && echo "$out" | grep -q '^VIOLATION'; then
     echo "$n ($prop): DETECTED  $(echo "$out" | grep -c '^VIOLATION') violation line(s); first: $(echo "$out" | grep -m1 FAILED | cut -c1-160)"
   else
